@@ -10,6 +10,7 @@ import (
 	"fmt"
 	"runtime"
 	"sort"
+	"strings"
 	"sync"
 	"sync/atomic"
 	"time"
@@ -197,6 +198,138 @@ func staleValidation() J {
 	func() {
 		defer func() { _ = recover() }()
 		obs["view"] = viewJ(li)
+	}()
+	return obs
+}
+
+// staleValidationOp: the family of the witness above.  A list (or a document array) holds [a b c d e]; G2 issues an operation on its
+// tail (valid when called), passes the validation that runs BEFORE the datatype's mutex is taken and pauses before locking; G1
+// shrinks the container to [a b]; G2 resumes.  One-at-a-time semantics: G2's call behaves as if made after the shrink — an error (or
+// a legal effect), never a panic; and every issued operation is queued once, in identifier order.
+func staleValidationOp(kind string) J {
+	obs := J{}
+	c := orda.NewClient(orda.NewLocalClientConfig("col"), "v")
+	var li orda.List
+	var arr orda.Document
+	var dt orda.Datatype
+	if strings.HasPrefix(kind, "list.") {
+		li = c.CreateList("k", nil)
+		_, _ = li.InsertMany(0, "a", "b", "c", "d", "e")
+		dt = li
+	} else {
+		doc := c.CreateDocument("k", nil)
+		_, _ = doc.PutToObject("arr", []interface{}{"a", "b", "c", "d", "e"})
+		arr, _ = doc.GetFromObject("arr")
+		dt = doc
+		if arr == nil {
+			obs["setup"] = "no array"
+			return obs
+		}
+	}
+	var g2 uint64
+	atPoint := make(chan struct{})
+	resume := make(chan struct{})
+	var once sync.Once
+	verifhook.SetHook(func(p string) {
+		if p == "tx.begin.beforeLock" && curG() == atomic.LoadUint64(&g2) {
+			once.Do(func() {
+				close(atPoint)
+				select {
+				case <-resume:
+				case <-time.After(3 * time.Second):
+				}
+			})
+		}
+	})
+	defer verifhook.SetHook(nil)
+	res := make(chan string, 2)
+	go func() {
+		defer func() {
+			if r := recover(); r != nil {
+				res <- "g2:panic:" + fmt.Sprint(r)
+			}
+		}()
+		atomic.StoreUint64(&g2, curG())
+		var err error
+		switch kind {
+		case "list.update":
+			_, e := li.Update(3, "x", "y")
+			if e != nil {
+				err = e
+			}
+		case "list.delete":
+			_, e := li.DeleteMany(3, 2)
+			if e != nil {
+				err = e
+			}
+		case "list.insert":
+			_, e := li.InsertMany(5, "x")
+			if e != nil {
+				err = e
+			}
+		case "doc.update":
+			_, e := arr.UpdateManyInArray(3, "x", "y")
+			if e != nil {
+				err = e
+			}
+		case "doc.delete":
+			_, e := arr.DeleteManyInArray(3, 2)
+			if e != nil {
+				err = e
+			}
+		case "doc.insert":
+			_, e := arr.InsertToArray(5, "x")
+			if e != nil {
+				err = e
+			}
+		}
+		if err != nil {
+			res <- "g2:err"
+		} else {
+			res <- "g2:ok"
+		}
+	}()
+	select {
+	case <-atPoint:
+	case <-time.After(2 * time.Second):
+		obs["pointNotReached"] = true
+	}
+	func() {
+		defer func() {
+			if r := recover(); r != nil {
+				obs["g1panic"] = fmt.Sprint(r)
+			}
+		}()
+		if li != nil {
+			_, _ = li.DeleteMany(2, 3)
+		} else {
+			_, _ = arr.DeleteManyInArray(2, 3)
+		}
+	}()
+	close(resume)
+	select {
+	case r := <-res:
+		obs["g2"] = r
+	case <-time.After(3 * time.Second):
+		obs["g2"] = "g2:deadlock"
+	}
+	func() {
+		defer func() { _ = recover() }()
+		obs["view"] = viewJ(dt)
+		// one more call must work, and the queued identifiers are 1,2,3,…
+		if li != nil {
+			_, e := li.InsertMany(0, "z")
+			obs["after"] = e == nil
+		} else {
+			_, e := arr.InsertToArray(0, "z")
+			obs["after"] = e == nil
+		}
+		pk := dt.(interface{ CreatePushPullPack() *model.PushPullPack }).CreatePushPullPack()
+		seqs := make([]interface{}, 0)
+		for _, o := range pk.Operations {
+			seqs = append(seqs, o.ID.Seq)
+		}
+		obs["seqs"] = seqs
 	}()
 	return obs
 }
@@ -487,6 +620,11 @@ func runConcProfile(seed uint64, cases int, out func(cmd, obs J), statsPath stri
 	}
 	out(J{"k": "intent", "of": "witness", "point": "list.stale-validation"}, J{})
 	out(J{"k": "witness", "point": "list.stale-validation"}, staleValidation())
+	for _, kind := range []string{"list.update", "list.delete", "list.insert", "doc.update", "doc.delete", "doc.insert"} {
+		out(J{"k": "intent", "of": "witness", "point": "stale-validation." + kind}, J{})
+		out(J{"k": "witness", "point": "stale-validation." + kind}, staleValidationOp(kind))
+		stats["witness"]++
+	}
 	for c := 0; c < cases; c++ {
 		typ := []string{"counter", "map", "list"}[c%3]
 		ngo := 2 + r.intn(7)
